@@ -26,22 +26,30 @@ def key_of(step, clause):
 def history(seed, k, n_steps):
     rng = random.Random(seed)
     w = dp.World()
-    w.feed(rng)
+    binary = k % 6 == 5          # every sixth history: two volatile chemicals, mostly composition specifications
+    w.feed(rng, binary)
     init = w.project()
     steps = []
     for _ in range(n_steps):
         if rng.random() < 0.15:
-            w.feed(rng)
+            w.feed(rng, binary)
             steps.append(dict(op='shuffle', a=dict(x=0), post=w.project(), obs=dict(exc='none', msg='')))
             continue
-        op, a = dp.random_op(rng, w)
+        last = steps[-1] if steps else None
+        if last is not None and last['op'] == 'lle' and last['obs']['exc'] == 'none' and rng.random() < 0.5:
+            # the same liquid-liquid call again after a small change of one (trace) chemical: the solver may reuse what it remembers
+            w.nudge(rng)
+            steps.append(dict(op='shuffle', a=dict(x=0), post=w.project(), obs=dict(exc='none', msg='')))
+            op, a = 'lle', dict(last['a'], use_cache=1)
+        else:
+            op, a = dp.random_op(rng, w)
         obs = w.apply(op, a)
         try:
             post = w.project()
         except Exception:
             # a call that raised half-way left an object that cannot be read (not a C03 subject): start over with new material
             w = dp.World()
-            w.feed(rng)
+            w.feed(rng, binary)
             steps.append(dict(op='shuffle', a=dict(x=0), post=w.project(), obs=dict(exc='none', msg='')))
             continue
         steps.append(dict(op=op, a=a, post=post, obs=obs))
